@@ -294,7 +294,9 @@ func innerServersVerified(c *an.Ctx, v *ssa.Function) {
 			if !sameElem && e.K == an.KIA && st.K == an.KLoad && len(st.A) > 0 && st.A[0].K == an.KFA && st.A[0].S == "GCAAuthorization" && len(st.A[0].A) > 0 && st.A[0].A[0].Key() == e.Key() {
 				sameElem = true
 			}
-			if !strings.Contains(e.Key(), "NewServers") || !sameElem {
+			// (an element of the whole list: not of a part of it, order.NewServers[:1])
+			partial := e.Contains(func(y *an.Term) bool { return y.K == an.KSlice })
+			if !strings.Contains(e.Key(), "NewServers") || !sameElem || partial {
 				seen = append(seen, "data "+short(e.Key())+" signature "+short(st.Key())+" expected "+short(fi.FieldOfTerm(e, "GCAAuthorization").Key()))
 				continue
 			}
@@ -311,7 +313,8 @@ func innerServersVerified(c *an.Ctx, v *ssa.Function) {
 		}
 		if k, isC := o.Results[len(o.Results)-1].IsConst(); isC && k == "nil" {
 			for _, f := range o.Facts {
-				if !f.Neg && f.T.K == an.KBin && f.T.S == "<=" && f.T.A[0].K == an.KLen && strings.Contains(f.T.A[0].Key(), "NewServers") {
+				if !f.Neg && f.T.K == an.KBin && f.T.S == "<=" && f.T.A[0].K == an.KLen && strings.Contains(f.T.A[0].Key(), "NewServers") &&
+					!f.T.A[0].Contains(func(y *an.Term) bool { return y.K == an.KSlice }) {
 					exhausted = true
 				}
 			}
